@@ -8,6 +8,8 @@ The translated code runs directly on the model's state record `Cl.CSt` (`buffer`
 -/
 namespace Cl
 
+/-- `CRLF` -/
+def crlf : Bytes := [13, 10]
 /-- `CRLF in data` -/
 def hasCRLF (b : Bytes) : Bool := (findCRLF b).isSome
 /-- `data.split(CRLF, 1)` behind `CRLF in data` -/
